@@ -4,9 +4,12 @@ From Refinery Require Export Lib.Base Model.Reload.
 (* one trigger and what the real fileConfig looked like after it *)
 Record step_obs := {
   so_kind : N;              (* 0 timer tick (Reload), 1 pubsub message (SubscriptionListener), 2 malformed pubsub
-                               message (no reload), 3 burst of so_n concurrent triggers *)
+                               message (no reload), 3 burst of so_n concurrent triggers, 4 a reload reads so_src and is
+                               held at the store, the sources change to so_src2, a second trigger arrives, the first
+                               reload finishes, both return *)
   so_n : N;
   so_src : source;          (* what the sources held, with startup's verdict measured by the real NewConfig *)
+  so_src2 : source;         (* kind 4 only: what they held when the second trigger arrived *)
   so_val : N;               (* identity of the getter values of the running config afterwards *)
   so_hash : N;              (* content identity of GetHashes() afterwards *)
   so_notes : list (list N)  (* per listener: content identities passed to its callback during this step *)
@@ -30,7 +33,11 @@ Fixpoint model_steps (cbs : list N) (s : sys) (steps : list step_obs) : bool :=
   | o :: r =>
       let n := if N.eqb (so_kind o) 3 then N.to_nat (so_n o) else 1%nat in
       let s0 := sstep gen_variant cbs s (SetFile (so_src o)) in
-      let s1 := if N.eqb (so_kind o) 2 then s0 else srun gen_variant cbs s0 (trigger_schedule n (length cbs)) in
+      let s1 := if N.eqb (so_kind o) 2 then s0
+                else if N.eqb (so_kind o) 4 then
+                  srun gen_variant cbs s0 ([Trigger 0; Step 0; Step 0; Step 0; SetFile (so_src2 o); Trigger 1; Step 1; Step 1]%nat ++
+                                           rounds (2 * (8 + length cbs)) [0; 1]%nat)
+                else srun gen_variant cbs s0 (trigger_schedule n (length cbs)) in
       let fresh := firstn (length (notes s1) - length (notes s)) (notes s1) in
       quiescent s1 && N.eqb (cval (cur s1)) (so_val o) && N.eqb (chash (cur s1)) (so_hash o) &&
       list_eqb (list_eqb N.eqb) (map (fun cb => rev (notes_of cb fresh)) cbs) (so_notes o) &&
@@ -70,10 +77,30 @@ Definition step_codes (prev_hash prev_val : N) (o : step_obs) : codes :=
       (if existsb (fun l => match l with [] => false | _ => true end) (so_notes o) then [15%N] else [])
   end.
 
+(* kind 4: after both reloads returned the outcome must be that of reloading so_src, then so_src2 *)
+Definition should_apply (prev_hash : N) (s : source) : option content :=
+  match s with
+  | Readable c => if cacc c && negb (N.eqb (chash c) prev_hash) then Some c else None
+  | Unreadable => None
+  end.
+Definition step_codes4 (prev_hash prev_val : N) (o : step_obs) : codes :=
+  let a1 := should_apply prev_hash (so_src o) in
+  let h1 := match a1 with Some c => chash c | None => prev_hash end in
+  let v1 := match a1 with Some c => cval c | None => prev_val end in
+  let a2 := should_apply h1 (so_src2 o) in
+  let h2 := match a2 with Some c => chash c | None => h1 end in
+  let v2 := match a2 with Some c => cval c | None => v1 end in
+  let want := app (match a1 with Some c => [chash c] | None => [] end) (match a2 with Some c => [chash c] | None => [] end) in
+  app (if N.eqb (so_hash o) h2 then (if N.eqb (so_val o) v2 then [] else [17%N])
+       else match a2 with Some _ => [18%N] | None => [12%N] end)
+      (if forallb (fun l => list_eqb N.eqb l want) (so_notes o) then []
+       else if existsb (fun l => (length l <? length want)%nat) (so_notes o) then [13%N] else [14%N]).
+
 Fixpoint monitor_steps (prev_hash prev_val : N) (steps : list step_obs) : codes :=
   match steps with
   | [] => []
-  | o :: r => step_codes prev_hash prev_val o ++ monitor_steps (so_hash o) (so_val o) r
+  | o :: r => (if N.eqb (so_kind o) 4 then step_codes4 prev_hash prev_val o else step_codes prev_hash prev_val o) ++
+              monitor_steps (so_hash o) (so_val o) r
   end.
 
 Definition check (c : case) : codes :=
